@@ -7,6 +7,7 @@ use std::{
 
 use cfg_file::ConfigFile;
 use locale::{BuildersKeys, BuildersKeysInner, DefaultTo, Locale, LocalesOrNamespaces};
+use parsed_value::ParsedValue;
 
 pub mod cfg_file;
 pub mod error;
@@ -124,12 +125,33 @@ fn resolve_foreign_keys(
     foreign_keys_paths: BTreeSet<(Key, KeyPath)>,
 ) -> Result<()> {
     for (locale, value_path) in foreign_keys_paths {
-        let value = values
-            .get_value_at(&locale, &value_path)
-            .unwrap_at("resolve_foreign_keys_1");
-        value.resolve_foreign_key(values, &locale, default_locale, extensions, &value_path)?;
+        let value = values.get_value_at(&locale, &value_path);
+        // The paths are registered when the values are parsed, a foreign key inside a plural form
+        // (`key_one: "$t(..)"`) is now inside the plural `key` the form has been merged into.
+        let plural = merged_plural_path(&value_path)
+            .and_then(|plural_path| values.get_value_at(&locale, &plural_path))
+            .filter(|value| matches!(value, ParsedValue::Plurals(_)));
+        if plural.is_none() {
+            // a registered path always leads to a value
+            value.unwrap_at("resolve_foreign_keys_1");
+        }
+        for value in value.into_iter().chain(plural) {
+            value.resolve_foreign_key(values, &locale, default_locale, extensions, &value_path)?;
+        }
     }
     Ok(())
+}
+
+/// The path of the plural a plural form has been merged into: `a.key_one` => `a.key`
+fn merged_plural_path(path: &KeyPath) -> Option<KeyPath> {
+    let (form_key, parent_path) = path.path.split_last()?;
+    let (base_key, _, _) = Locale::parse_plural_key(form_key)?;
+    let mut plural_path = KeyPath {
+        namespace: path.namespace.clone(),
+        path: parent_path.to_vec(),
+    };
+    plural_path.push_key(Key::new(base_key)?);
+    Some(plural_path)
 }
 
 fn check_locales(
